@@ -122,11 +122,11 @@ pub enum CustomAction {
 }
 
 mod tweak_serde {
-    use serde::{Deserialize, Serialize};
+    use serde::{de, Deserialize, Deserializer, Serialize};
     use serde_json::value::RawValue as RawJsonValue;
 
     /// Values for the `set_tweak` action.
-    #[derive(Clone, Deserialize, Serialize)]
+    #[derive(Clone, Serialize)]
     #[serde(untagged)]
     pub(crate) enum Tweak {
         Sound(SoundTweak),
@@ -136,6 +136,34 @@ mod tweak_serde {
             name: String,
             value: Box<RawJsonValue>,
         },
+    }
+
+    impl<'de> Deserialize<'de> for Tweak {
+        fn deserialize<D>(deserializer: D) -> Result<Self, D::Error>
+        where
+            D: Deserializer<'de>,
+        {
+            #[derive(Deserialize)]
+            struct CustomTweak {
+                #[serde(rename = "set_tweak")]
+                name: String,
+                value: Box<RawJsonValue>,
+            }
+
+            // A `RawJsonValue` cannot be read from the buffer that a derived untagged enum uses,
+            // so choose the variant from the raw text.
+            let json = Box::<RawJsonValue>::deserialize(deserializer)?;
+
+            if let Ok(tweak) = serde_json::from_str(json.get()) {
+                Ok(Self::Sound(tweak))
+            } else if let Ok(tweak) = serde_json::from_str(json.get()) {
+                Ok(Self::Highlight(tweak))
+            } else {
+                let CustomTweak { name, value } =
+                    serde_json::from_str(json.get()).map_err(de::Error::custom)?;
+                Ok(Self::Custom { name, value })
+            }
+        }
     }
 
     #[derive(Clone, PartialEq, Deserialize, Serialize)]
